@@ -143,6 +143,13 @@ def validate_trace(module, trace, focus, name, timeout=3600, cfg=None):
     """Trace validation. Returns (fails, consumed_all, res)."""
     res = tlc(module, cfg or (module + ".cfg"), name, workers=1, env={"TRACE": trace, "FOCUS": focus}, timeout=timeout)
     if res.get("error") and not res["unmatched"]:
+        fails = sorted(set(res["fails"]))
+        if any(p == focus for _, p, _ in fails):
+            # an obligation of this property had already failed when TLC stopped on an evaluation error (typically 32-bit
+            # overflow on an absurd figure): the failures stand; the rest of the trace was not examined
+            log("TLC stopped with an evaluation error after failed obligations had been reported: the failures stand (%s)" % str(res["error"])[:160])
+            res["partial"] = True
+            return fails, True, res
         raise ToolError("TLC error validating %s: %s\n%s" % (trace, res["error"], res["out"][-2500:]))
     fails = sorted(set(res["fails"]))
     return fails, not res["unmatched"], res
